@@ -71,7 +71,9 @@ def gen_rule(rng, items, idgen, depth=1, p_id=0.4):
     return {"k": "Imply", "id": vid, "args": [cond, cons]}
 
 
-def gen_config(rng, nitems=None, nrules=None, cid=True):
+def gen_config(rng, nitems=None, nrules=None, cid=None):
+    if cid is None:
+        cid = rng.random() < 0.6          # a configurator is usually built without an id of its own (the id is then a generated one)
     nitems = nitems or rng.randint(3, 6)
     items = ITEMS[:nitems]
     cnt = [0]
